@@ -134,8 +134,8 @@ Section Net.
 
   (* ---- programs: pipelines separated by ; && || ---- *)
 
-  (* a pipeline of a program: connector, initial stage states, and the state the
-     first stage takes when runModeNormal skips it (it terminates at once with the
+  (* a pipeline of a program: connector, initial stage states, and the state a stage
+     takes when runModeNormal skips the pipeline (it terminates at once with the
      previous exit number and writes nothing) *)
   Record item := mki { i_conn : conn; i_inits : list St; i_skip : Z -> St }.
 
@@ -151,13 +151,16 @@ Section Net.
     | OrElse => Z.eqb prev 0 || sk
     end.
 
+  (* /repo b8e2cf9: when the head of a pipeline is skipped, its remaining stages (methods) are
+     skipped too: every stage terminates at once with the previous exit number, and
+     skipPipeline stays set *)
   Definition load_inits (sk : bool) (prev : Z) (it : item) : list St :=
     if skipped sk prev (i_conn it)
-    then match i_inits it with [] => [] | _ :: tl => i_skip it prev :: tl end
+    then map (fun _ => i_skip it prev) (i_inits it)
     else i_inits it.
 
   Definition load_skip (sk : bool) (prev : Z) (it : item) : bool :=
-    skipped sk prev (i_conn it) && (length (i_inits it) <=? 1)%nat.
+    skipped sk prev (i_conn it).
 
   (* start the next pipeline: only once the running one has finished; the sinks carry over *)
   Fixpoint advance (c : config) (sk : bool) (rest : list item) : gconfig :=
